@@ -43,9 +43,11 @@ def _default_pair(prog, eng, attr):
     for fi, val in ci.attr_init.get(attr, []):
         if isinstance(val, ast.Call) and (dotted(val.func) or "").endswith("defaultdict") and val.args:
             fac = val.args[0]
-            if isinstance(fac, ast.Lambda) and isinstance(fac.body, ast.Tuple) and len(fac.body.elts) == 2 \
-                    and all(isinstance(x, ast.Constant) for x in fac.body.elts):
-                return tuple(x.value for x in fac.body.elts), fi, val
+            if isinstance(fac, ast.Lambda) and not fac.args.args:
+                # the factory's value: a display of constants, or a (module / class level) constant holding one
+                v = eng._eval_in_module(fac.body, fi.module)
+                if v[0] == "tuple" and len(v[1]) == 2 and all(is_const(x) for x in v[1]):
+                    return tuple(x[1] for x in v[1]), fi, val
     return None, None, None
 
 
